@@ -3,8 +3,11 @@
 // and saw (c10_bitfield.hpp).  It contains no expected values: spec/BitfieldJudge.tla (TLC) is
 // the judge.
 //
-//   c10_bitfield record OUT n w seed pairs_mode ntrees nhist
+//   c10_bitfield record OUT n w seed pairs_mode ntrees nhist [bits_stride lastword_stride deep]
 //        pairs_mode: "all" = every pair of subsets (n <= 9), or a number of random pairs
+//        bits_stride k > 0: all single-enumerator operations of every k-th subset
+//        lastword_stride k > 0 (multi-word bitfields): all pairs of subsets that differ only in the
+//        last storage word, for every k-th choice of the other words
 //   c10_bitfield replay SCRIPTS.ndjson OUT n w     (one JSON array of op records per line)
 #include "c10_bitfield.hpp"
 
@@ -42,6 +45,9 @@ int main(int argc, char **argv)
       a.pairs = argv[6];
       a.ntrees = std::strtol(argv[7], nullptr, 10);
       a.nhist = std::strtol(argv[8], nullptr, 10);
+      a.bits_stride = argc > 9 ? std::strtol(argv[9], nullptr, 10) : 0;
+      a.lastword_stride = argc > 10 ? std::strtol(argv[10], nullptr, 10) : 0;
+      a.deep = argc > 11 && std::strtol(argv[11], nullptr, 10) != 0;
       int const rc = dispatch(std::atoi(argv[3]), std::atoi(argv[4]), a);
       vj::close();
       return rc;
